@@ -349,6 +349,23 @@ func runHunt(o Opts) {
 			}
 			return
 		}
+		if c.Kind == "O" || c.Kind == "OD" {
+			tried++
+			if f := optOracle(c); f != "" {
+				s := optShrink(c)
+				if f2 := optOracle(s); f2 != "" {
+					f = f2
+				} else {
+					s = c
+				}
+				key := fmt.Sprintf("opt|%d|%d|%s", s.R, s.Opt, f[:minInt(len(f), 60)])
+				if !seen[key] {
+					seen[key] = true
+					all = append(all, huntEntry{Failure: f, Case: s})
+				}
+			}
+			return
+		}
 		if c.Kind != "D" && c.Kind != "V" && c.Kind != "F" && c.Kind != "RD" {
 			return
 		}
@@ -444,6 +461,10 @@ func runHunt(o Opts) {
 	}
 	for i := 0; i < o.N/20; i++ {
 		try(genHelper(rng, i))
+	}
+	// round 5: every option row group x InSitu mode x width through every path
+	for _, c := range generateOptions(NewRng(o.Seed*1000003+4242), o.N/3) {
+		try(c)
 	}
 	// InSitu buffers reused across derivative orders
 	for i := 0; i < o.N/50; i++ {
